@@ -254,10 +254,30 @@ example : errOf (unpackAt (.array 2 true .q true) [0, 2, 0, 0, 0, 0, 0, 0, 0, 5]
 
 /-! ## receive path -/
 
-/-- Community.on_packet returns normally for every datagram, whatever the handler bodies do -/
-theorem community_on_packet_total (env : Env) (lid : Nat) (o : Overlay) (data : Bytes) :
-    (communityOnPacket env lid o data).2 = none := by
+/-- NEW (sender history): `Network.get_verified_by_address` returns normally for every Network state — whatever peers
+    were verified, removed, re-addressed, whatever is (still) in the reverse address cache — and every address. -/
+theorem sender_lookup_total (s : NetS) (a : Bytes) : ∃ p, (s.lookup a).1 = .ok p := by
+  unfold NetS.lookup
+  dsimp only
+  split
+  · rename_i e hv
+    split at hv
+    · cases hv
+    · split at hv
+      · cases hv
+      · simp [Gen.lookupDictSafe] at hv
+  · exact ⟨_, rfl⟩
+  · split
+    · exact ⟨_, rfl⟩
+    · exact ⟨_, rfl⟩
+
+/-- Community.on_packet returns normally for every datagram, whatever the handler bodies do (given that the sender
+    lookup returned normally, which `sender_lookup_total` shows for every Network state) -/
+theorem community_on_packet_total (env : Env) (lk : Except Exn (Option Nat)) (hlk : ∃ p, lk = .ok p) (lid : Nat)
+    (o : Overlay) (data : Bytes) : (communityOnPacket env lk lid o data).2 = none := by
+  obtain ⟨p, rfl⟩ := hlk
   unfold communityOnPacket
+  apply andThen_none rfl
   apply andThen_none rfl
   split
   · rfl
@@ -273,14 +293,15 @@ theorem community_on_packet_total (env : Env) (lid : Nat) (o : Overlay) (data : 
 
 /-- PythonCryptoEndpoint.on_packet returns normally for every datagram, every circuit table, every decryption outcome
     (including exceptions out of the crypto layer) and whatever relaying or handlers do -/
-theorem crypto_on_packet_total (env : Env) (dec : Nat → Bytes → Dec) (lid : Nat) (c : Crypto) (data : Bytes) :
-    (cryptoOnPacket env dec lid c data).2 = none := by
-  have tb : ∀ x, (tunnelBranch env c x).2 = none := by
+theorem crypto_on_packet_total (env : Env) (dec : Nat → Bytes → Dec) (lk : Except Exn (Option Nat))
+    (hlk : ∃ p, lk = .ok p) (lid : Nat) (c : Crypto) (data : Bytes) :
+    (cryptoOnPacket env dec lk lid c data).2 = none := by
+  have tb : ∀ x, (tunnelBranch env lk c x).2 = none := by
     intro x
     unfold tunnelBranch
     split
     · rfl
-    · exact community_on_packet_total ..
+    · exact community_on_packet_total _ _ hlk ..
   unfold cryptoOnPacket
   apply andThen_none rfl
   split
@@ -294,39 +315,48 @@ theorem crypto_on_packet_total (env : Env) (dec : Nat → Bytes → Dec) (lid : 
     · exact tb data
   · exact tb data
 
-theorem listener_on_packet_total (env : Env) (dec : Nat → Bytes → Dec) (t : List (Nat × Listener)) (l : Nat)
-    (data : Bytes) : (listenerOnPacket env dec t l data).2 = none := by
+theorem listener_on_packet_total (env : Env) (dec : Nat → Bytes → Dec) (lk : Except Exn (Option Nat))
+    (hlk : ∃ p, lk = .ok p) (t : List (Nat × Listener)) (l : Nat) (data : Bytes) :
+    (listenerOnPacket env dec lk t l data).2 = none := by
   unfold listenerOnPacket
   split
-  · exact community_on_packet_total ..
-  · exact crypto_on_packet_total ..
+  · exact community_on_packet_total _ _ hlk ..
+  · exact crypto_on_packet_total _ _ _ hlk ..
   · rfl
   · rfl
 
-theorem deliver_later_total (env : Env) (dec : Nat → Bytes → Dec) (r : Registry) (l : Nat) (data : Bytes) :
-    (deliverLater env dec r l data).2 = none := by
-  unfold deliverLater
+theorem step_out_total (env : Env) (dec : Nat → Bytes → Dec) (src data : Bytes) (s : DS) (l : Nat) :
+    (stepOut env dec src data s l).2 = none := by
+  unfold stepOut
   split
-  · exact listener_on_packet_total ..
+  · exact listener_on_packet_total _ _ _ (sender_lookup_total ..) ..
   · rfl
 
-theorem deliver_all_total (env : Env) (dec : Nat → Bytes → Dec) (r : Registry) (data : Bytes) (ls : List Nat) :
-    (deliverAll env dec r data ls).2 = none := by
-  induction ls with
-  | nil => rfl
-  | cons l ls ih =>
-    unfold deliverAll
-    exact andThen_none (deliver_later_total ..) ih
+theorem dispatch_total (env : Env) (dec : Nat → Bytes → Dec) (src data : Bytes) (key : Option Bytes) (fuel : Nat)
+    (s : DS) : (dispatch env dec src data key fuel s).1.2 = none := by
+  induction fuel generalizing s with
+  | zero => rfl
+  | succ n ih =>
+    unfold dispatch
+    split
+    · rfl
+    · split
+      · rename_i e he
+        rw [step_out_total] at he; cases he
+      · exact ih _
 
-/-- FULL statement: for every registry state (any history of add / add_prefix / remove / open / close), every datagram
-    (any length, any content), every behaviour of handler bodies and relaying (`env`: may raise anything) and every
-    decryption outcome (`dec`), `notify_listeners` returns normally: no exception reaches the transport. -/
-theorem receive_total (env : Env) (dec : Nat → Bytes → Dec) (r : Registry) (data : Bytes) :
-    (notify env dec r data).2 = none :=
-  deliver_all_total ..
+/-- FULL statement: for every registry state (any history of add / add_prefix / remove / open / close), every Network
+    state and sender address, every datagram (any length, any content), every behaviour of handler bodies and relaying
+    (`env`: may raise anything AND may call add_listener / add_prefix_listener / remove_listener / close on the endpoint
+    while the datagram is being dispatched) and every decryption outcome (`dec`), `notify_listeners` returns normally:
+    no exception reaches the transport. -/
+theorem receive_total (env : Env) (dec : Nat → Bytes → Dec) (fuel : Nat) (r : Registry) (net : NetS) (src data : Bytes) :
+    (notify env dec fuel r net src data).1.2 = none :=
+  dispatch_total ..
 
-theorem listener_called (env : Env) (dec : Nat → Bytes → Dec) (t : List (Nat × Listener)) (l : Nat) (data : Bytes)
-    (h : (lookupListener t l).isSome) : Ev.called l ∈ (listenerOnPacket env dec t l data).1 := by
+theorem listener_called (env : Env) (dec : Nat → Bytes → Dec) (lk : Except Exn (Option Nat)) (t : List (Nat × Listener))
+    (l : Nat) (data : Bytes) (h : (lookupListener t l).isSome) :
+    Ev.called l ∈ (listenerOnPacket env dec lk t l data).1 := by
   unfold listenerOnPacket
   split
   · unfold communityOnPacket; rw [andThen_events_of_none rfl]; simp
@@ -334,52 +364,89 @@ theorem listener_called (env : Env) (dec : Nat → Bytes → Dec) (t : List (Nat
   · simp
   · rename_i hn; rw [hn] at h; cases h
 
-theorem deliver_all_called (env : Env) (dec : Nat → Bytes → Dec) (r : Registry) (data : Bytes) (ls : List Nat)
-    (hopen : r.isOpen = true)
-    (hcond : ∀ l ∈ ls, ((lookupPrefix r.prefixMap (data.take Gen.prefixLen)).isSome || r.listeners.contains l) = true)
-    (hreg : ∀ l ∈ ls, (lookupListener r.table l).isSome) :
-    ∀ l ∈ ls, Ev.called l ∈ (deliverAll env dec r data ls).1 := by
-  induction ls with
-  | nil => intro l hl; cases hl
-  | cons x xs ih =>
-    intro l hl
-    unfold deliverAll
-    rw [andThen_events_of_none (deliver_later_total ..)]
-    rw [List.mem_append]
-    rcases List.mem_cons.mp hl with rfl | hl'
-    · left
-      unfold deliverLater
-      rw [hopen, hcond l (List.mem_cons_self ..)]
-      exact listener_called _ _ _ _ _ (hreg l (List.mem_cons_self ..))
-    · right
-      exact ih (fun y hy => hcond y (List.mem_cons_of_mem _ hy)) (fun y hy => hreg y (List.mem_cons_of_mem _ hy)) l hl'
+/-- a listener's registry calls are "harmless for `l`" if they never remove `l` and never close the endpoint -/
+def Harmless (env : Env) (l : Nat) : Prop :=
+  ∀ x d op, op ∈ env.effects x d → op ≠ .rm l ∧ ∀ b, op ≠ .setOpen b
 
-/-- FULL statement: on an open endpoint every listener that notify_listeners iterates over — the listeners registered
-    for the datagram's 22-byte prefix, or all global listeners when no such prefix is registered — has its on_packet
-    invoked, no matter what earlier listeners did with the datagram (rejected it, raised inside a handler, …). -/
-theorem receive_all_recipients_called (env : Env) (dec : Nat → Bytes → Dec) (r : Registry) (data : Bytes)
-    (hopen : r.isOpen = true) (hreg : ∀ l ∈ recipients r data, (lookupListener r.table l).isSome) :
-    ∀ l ∈ recipients r data, Ev.called l ∈ (notify env dec r data).1 := by
-  apply deliver_all_called env dec r data _ hopen _ hreg
-  intro l hl
-  unfold recipients at hl
-  cases hp : lookupPrefix r.prefixMap (data.take Gen.prefixLen) with
-  | some ls => simp
-  | none =>
-    rw [hp] at hl
-    simp at hl
-    simp [hl]
+theorem dispatch_called (env : Env) (dec : Nat → Bytes → Dec) (src data : Bytes) (key : Option Bytes) (l : Nat)
+    (hgood : Harmless env l) :
+    ∀ (fuel : Nat) (s : DS) (pre post : List Nat), s.pending = pre ++ l :: post → pre.length < fuel →
+      s.reg.isOpen = true → Reg.Inv s.reg (data.take Gen.prefixLen) l → (lookupListener s.reg.table l).isSome →
+      Ev.called l ∈ (dispatch env dec src data key fuel s).1.1 := by
+  intro fuel
+  induction fuel with
+  | zero => intro s pre post _ hlt; omega
+  | succ n ih =>
+    intro s pre post hp hlt hopen hinv hreg
+    unfold dispatch
+    cases pre with
+    | nil =>
+      simp only [List.nil_append] at hp
+      rw [hp]
+      have hd : deliverCond s.reg l data = true := deliverCond_of_inv hopen hinv
+      have hc : Ev.called l ∈ (stepOut env dec src data s l).1 := by
+        unfold stepOut; rw [if_pos hd]; exact listener_called _ _ _ _ _ _ hreg
+      simp only
+      split
+      · exact hc
+      · exact List.mem_append_left _ hc
+    | cons x pre' =>
+      simp only [List.cons_append] at hp
+      rw [hp]
+      simp only
+      split
+      · rename_i e he
+        rw [step_out_total] at he; cases he
+      · apply List.mem_append_right
+        have hfold := foldl_applyOp_inv key (data.take Gen.prefixLen) l
+          (if deliverCond s.reg x data then env.effects x data else [])
+          (by intro op hop
+              split at hop
+              · exact hgood x data op hop
+              · cases hop)
+          { s with net := if hasSender (stepOut env dec src data s x).1 then (s.net.lookup src).2 else s.net,
+                   pending := pre' ++ l :: post } hopen hinv
+        obtain ⟨htab, hopen', hinv', extra, hpend⟩ := hfold
+        apply ih _ pre' (post ++ extra)
+        · unfold stepState; rw [hpend]; simp
+        · simp at hlt; omega
+        · unfold stepState; exact hopen'
+        · unfold stepState; exact hinv'
+        · unfold stepState; rw [htab]; exact hreg
+
+/-- FULL statement ("other overlays still get the datagram"): on an open endpoint every listener that notify_listeners
+    starts to iterate over — the listeners registered for the datagram's 22-byte prefix, or all global listeners when no
+    such prefix is registered — has its on_packet invoked, no matter what the listeners before it did with the datagram:
+    rejected it, raised inside a handler, detached THEMSELVES or OTHER listeners from the endpoint, registered new
+    listeners or prefixes while the datagram was being dispatched.  (Only removing `l` itself or closing the endpoint
+    mid-dispatch can keep `l` from being called: that is what `_deliver_later` is for.) -/
+theorem receive_all_recipients_called (env : Env) (dec : Nat → Bytes → Dec) (r : Registry) (net : NetS)
+    (src data : Bytes) (l : Nat) (hl : l ∈ recipients r data) (hopen : r.isOpen = true)
+    (hreg : (lookupListener r.table l).isSome) (hgood : Harmless env l) (fuel : Nat)
+    (hfuel : (recipients r data).length ≤ fuel) :
+    Ev.called l ∈ (notify env dec fuel r net src data).1.1 := by
+  obtain ⟨pre, post, hsplit⟩ := List.append_of_mem hl
+  unfold notify
+  apply dispatch_called env dec src data _ l hgood fuel (initDS r net data) pre post
+  · simp [initDS, hsplit]
+  · have : (recipients r data).length = pre.length + (post.length + 1) := by rw [hsplit]; simp
+    omega
+  · exact hopen
+  · exact inv_of_recipient hl
+  · exact hreg
 
 /-! ### prefix gate -/
 
 /-- the handler events an overlay with prefix `p` can produce -/
 def Ev.handlerOf (p : Bytes) : Ev → Prop
   | .called _ => False
+  | .sender _ _ => False
   | .pub _ q _ => q = p
   | .priv _ q _ _ _ => q = p
 
 def Ev.isHandler : Ev → Prop
   | .called _ => False
+  | .sender _ _ => False
   | _ => True
 
 theorem from_circuit_events (env : Env) (lid : Nat) (o : Overlay) (x : Bytes) (cid : Nat) (ev : Ev)
@@ -409,30 +476,33 @@ theorem on_cell_events (env : Env) (lid : Nat) (o : Overlay) (x : Bytes) (ev : E
     · exact from_circuit_events _ _ _ _ _ _ h
 
 /-- Community.on_packet: a handler event implies that the datagram starts with the overlay's prefix -/
-theorem community_events (env : Env) (lid : Nat) (o : Overlay) (data : Bytes) (ev : Ev)
-    (h : ev ∈ (communityOnPacket env lid o data).1) :
-    ev = .called lid ∨ (o.pfx = data.take Gen.pubTake ∧ ev.handlerOf o.pfx) := by
+theorem community_events (env : Env) (lk : Except Exn (Option Nat)) (lid : Nat) (o : Overlay) (data : Bytes) (ev : Ev)
+    (h : ev ∈ (communityOnPacket env lk lid o data).1) :
+    ¬ ev.isHandler ∨ (o.pfx = data.take Gen.pubTake ∧ ev.handlerOf o.pfx) := by
   unfold communityOnPacket at h
   rcases andThen_mem h with h | h
-  · left; simpa using h
-  · right
-    split at h
-    · cases h
-    · rename_i hg
-      have hp : o.pfx = data.take Gen.pubTake := by
-        simp at hg
-        exact hg.1
-      refine ⟨hp, ?_⟩
+  · left; simp at h; subst h; simp [Ev.isHandler]
+  · rcases andThen_mem h with h | h
+    · left
+      split at h <;> (simp at h; subst h; simp [Ev.isHandler])
+    · right
       split at h
       · cases h
-      · split at h
-        · rw [catchAll_events] at h
-          split at h
-          · rcases andThen_mem h with h | h
-            · simp at h; subst h; simp [Ev.handlerOf]
-            · exact on_cell_events _ _ _ _ _ h
-          · simp [handlerCall] at h; subst h; simp [Ev.handlerOf]
+      · rename_i hg
+        have hp : o.pfx = data.take Gen.pubTake := by
+          simp at hg
+          exact hg.1
+        refine ⟨hp, ?_⟩
+        split at h
         · cases h
+        · split at h
+          · rw [catchAll_events] at h
+            split at h
+            · rcases andThen_mem h with h | h
+              · simp at h; subst h; simp [Ev.handlerOf]
+              · exact on_cell_events _ _ _ _ _ h
+            · simp [handlerCall] at h; subst h; simp [Ev.handlerOf]
+          · cases h
 
 theorem take_of_prefix (p data : Bytes) (n : Nat) (hp : p.isPrefixOf data = true) (hn : n ≤ p.length) :
     data.take n = p.take n := by
@@ -442,18 +512,19 @@ theorem take_of_prefix (p data : Bytes) (n : Nat) (hp : p.isPrefixOf data = true
 
 /-- PythonCryptoEndpoint.on_packet: a handler of the tunnel overlay is entered (directly or through a cell, after
     decryption and re-serialisation) only if the ORIGINAL datagram starts with that overlay's prefix -/
-theorem crypto_events (env : Env) (dec : Nat → Bytes → Dec) (lid : Nat) (c : Crypto) (data : Bytes) (ev : Ev)
-    (hlen : Gen.pubTake ≤ c.pfx.length) (h : ev ∈ (cryptoOnPacket env dec lid c data).1) (hh : ev.isHandler) :
+theorem crypto_events (env : Env) (dec : Nat → Bytes → Dec) (lk : Except Exn (Option Nat)) (lid : Nat) (c : Crypto)
+    (data : Bytes) (ev : Ev)
+    (hlen : Gen.pubTake ≤ c.pfx.length) (h : ev ∈ (cryptoOnPacket env dec lk lid c data).1) (hh : ev.isHandler) :
     ∃ tl o, c.tunnel = some (tl, o) ∧ o.pfx = data.take Gen.pubTake ∧ ev.handlerOf o.pfx := by
-  have tb : ∀ x, ev ∈ (tunnelBranch env c x).1 →
+  have tb : ∀ x, ev ∈ (tunnelBranch env lk c x).1 →
       ∃ tl o, c.tunnel = some (tl, o) ∧ o.pfx = x.take Gen.pubTake ∧ ev.handlerOf o.pfx := by
     intro x hx
     unfold tunnelBranch at hx
     split at hx
     · cases hx
     · rename_i tl o ht
-      rcases community_events _ _ _ _ _ hx with rfl | ⟨hp, hev⟩
-      · cases hh
+      rcases community_events _ _ _ _ _ _ hx with hn | ⟨hp, hev⟩
+      · exact absurd hh hn
       · exact ⟨tl, o, ht, hp, hev⟩
   unfold cryptoOnPacket at h
   rcases andThen_mem h with h | h
@@ -490,39 +561,60 @@ theorem crypto_events (env : Env) (dec : Nat → Bytes → Dec) (lid : Nat) (c :
     · exact tb data h
 
 /-- WF: the prefix a crypto endpoint filters on has at least the 22 bytes the overlays compare
-    (setup_tunnels copies the tunnel community's own 22-byte prefix) -/
-def Registry.WF (r : Registry) : Prop :=
-  ∀ l c, lookupListener r.table l = some (.crypto c) → Gen.pubTake ≤ c.pfx.length
+    (setup_tunnels copies the tunnel community's own 22-byte prefix); a property of the listener table only, which
+    registry calls never change -/
+def TableWF (t : List (Nat × Listener)) : Prop :=
+  ∀ l c, lookupListener t l = some (.crypto c) → Gen.pubTake ≤ c.pfx.length
 
-theorem deliver_all_mem (env : Env) (dec : Nat → Bytes → Dec) (r : Registry) (data : Bytes) (ls : List Nat) (ev : Ev)
-    (h : ev ∈ (deliverAll env dec r data ls).1) : ∃ l, ev ∈ (listenerOnPacket env dec r.table l data).1 := by
-  induction ls with
-  | nil => cases h
-  | cons x xs ih =>
-    unfold deliverAll at h
-    rcases andThen_mem h with h | h
-    · unfold deliverLater at h
-      split at h
-      · exact ⟨x, h⟩
-      · cases h
-    · exact ih h
-
-/-- FULL statement: whatever the registry, the datagram, the handler bodies and the decryption results, a message handler
-    — public (`decode_map`) or circuit-only (`decode_map_private`, reached through a cell) — of an overlay with prefix
-    `p` is entered only if the first 22 bytes of the datagram handed to notify_listeners are `p`. -/
-theorem prefix_gate (env : Env) (dec : Nat → Bytes → Dec) (r : Registry) (hwf : r.WF) (data : Bytes) (ev : Ev)
-    (h : ev ∈ (notify env dec r data).1) (hh : ev.isHandler) : ev.handlerOf (data.take Gen.pubTake) := by
-  obtain ⟨l, hl⟩ := deliver_all_mem _ _ _ _ _ _ h
-  unfold listenerOnPacket at hl
-  split at hl
-  · rcases community_events _ _ _ _ _ hl with rfl | ⟨hp, hev⟩
-    · cases hh
+theorem listener_events (env : Env) (dec : Nat → Bytes → Dec) (lk : Except Exn (Option Nat)) (t : List (Nat × Listener))
+    (hwf : TableWF t) (l : Nat) (data : Bytes) (ev : Ev) (h : ev ∈ (listenerOnPacket env dec lk t l data).1)
+    (hh : ev.isHandler) : ev.handlerOf (data.take Gen.pubTake) := by
+  unfold listenerOnPacket at h
+  split at h
+  · rcases community_events _ _ _ _ _ _ h with hn | ⟨hp, hev⟩
+    · exact absurd hh hn
     · rw [← hp]; exact hev
   · rename_i c hc
-    obtain ⟨_, o, _, hp, hev⟩ := crypto_events _ _ _ _ _ _ (hwf l c hc) hl hh
+    obtain ⟨_, o, _, hp, hev⟩ := crypto_events _ _ _ _ _ _ _ (hwf l c hc) h hh
     rw [← hp]; exact hev
-  · simp at hl; subst hl; cases hh
-  · cases hl
+  · simp at h; subst h; cases hh
+  · cases h
+
+theorem dispatch_mem (env : Env) (dec : Nat → Bytes → Dec) (src data : Bytes) (key : Option Bytes) (ev : Ev) :
+    ∀ (fuel : Nat) (s : DS), ev ∈ (dispatch env dec src data key fuel s).1.1 →
+      ∃ l lk, ev ∈ (listenerOnPacket env dec lk s.reg.table l data).1 := by
+  intro fuel
+  induction fuel with
+  | zero => intro s h; cases h
+  | succ n ih =>
+    intro s h
+    unfold dispatch at h
+    split at h
+    · cases h
+    · rename_i l rest _
+      have hso : ∀ e, e ∈ (stepOut env dec src data s l).1 → ∃ l lk, e ∈ (listenerOnPacket env dec lk s.reg.table l data).1 := by
+        intro e he
+        unfold stepOut at he
+        split at he
+        · exact ⟨_, _, he⟩
+        · cases he
+      split at h
+      · exact hso _ h
+      · rcases List.mem_append.mp h with h | h
+        · exact hso _ h
+        · obtain ⟨l', lk', h'⟩ := ih _ h
+          rw [stepState_table] at h'
+          exact ⟨l', lk', h'⟩
+
+/-- FULL statement: whatever the registry, the Network, the datagram, the handler bodies (raising, re-entrant) and the
+    decryption results, a message handler — public (`decode_map`) or circuit-only (`decode_map_private`, reached
+    through a cell) — of an overlay with prefix `p` is entered only if the first 22 bytes of the datagram handed to
+    notify_listeners are `p`. -/
+theorem prefix_gate (env : Env) (dec : Nat → Bytes → Dec) (fuel : Nat) (r : Registry) (hwf : TableWF r.table) (net : NetS)
+    (src data : Bytes) (ev : Ev) (h : ev ∈ (notify env dec fuel r net src data).1.1) (hh : ev.isHandler) :
+    ev.handlerOf (data.take Gen.pubTake) := by
+  obtain ⟨l, lk, hl⟩ := dispatch_mem _ _ _ _ _ _ _ _ h
+  exact listener_events _ _ _ _ hwf _ _ _ hl hh
 
 /-- the generated tables satisfy the side conditions: every shipped overlay has a prefix of exactly the length the
     endpoint demultiplexes on and the overlays compare -/
@@ -557,8 +649,9 @@ theorem load_snapshot_total (snap : Bytes) (fuel off : Nat) (h : snap.length - o
       · rfl
     · rfl
 
-/-! non-vacuity of the receive theorems: a registry with a tunnel overlay behind a crypto endpoint and a second overlay;
-    a plaintext CREATE cell reaches the circuit-only handler, a foreign datagram reaches nothing -/
+/-! non-vacuity of the receive theorems: a registry with a tunnel overlay behind a crypto endpoint; a plaintext CREATE
+    cell reaches the circuit-only handler; a one-shot listener that detaches itself does not make the next one miss the
+    datagram; a stale cache entry (peer removed after it was cached) is just dropped -/
 def exPfx : Bytes := List.replicate 22 7
 def exTunnel : Overlay := { pfx := exPfx, pub := [0, 8], priv := [2, 3], tunnel := true }
 def exReg : Registry :=
@@ -566,16 +659,28 @@ def exReg : Registry :=
     table := [(10, .crypto { pfx := exPfx, tunnel := some (1, exTunnel), relays := [], circuits := [], exits := [],
                              maxRelayEarly := 8 })] }
 def exEnv : Env := { pubRaises := fun _ _ _ => true, privRaises := fun _ _ _ _ => true, relayRaises := fun _ _ => true }
+def evCode : Ev → Nat
+  | .called l => l
+  | .sender _ _ => 50
+  | .pub _ _ m => 100 + m
+  | .priv _ _ m _ _ => 200 + m
 
-example : exReg.WF := by
+example : TableWF exReg.table := by
   intro l c h
   simp [exReg, lookupListener] at h
   obtain ⟨_, rfl⟩ := h
   decide
-example : ((notify exEnv (fun _ _ => .fail) exReg (exPfx ++ [0, 0, 0, 0, 9, 1, 1, 2, 5, 5])).1.map
-    (fun e => match e with | .called l => l | .pub _ _ m => 100 + m | .priv _ _ m _ _ => 200 + m)) = [10, 1, 100, 202] := by
-  decide
-example : (notify exEnv (fun _ _ => .fail) exReg (exPfx ++ [0, 0, 0])).2 = none := by decide
-example : (notify exEnv (fun _ _ => .raise) exReg exPfx).1 = [.called 10, .called 1] := by decide
+example : ((notify exEnv (fun _ _ => .fail) 9 exReg {} [1] (exPfx ++ [0, 0, 0, 0, 9, 1, 1, 2, 5, 5])).1.1.map evCode)
+    = [10, 1, 50, 100, 202] := by decide
+example : (notify exEnv (fun _ _ => .fail) 9 exReg {} [1] (exPfx ++ [0, 0, 0])).1.2 = none := by decide
+example : ((notify exEnv (fun _ _ => .raise) 9 exReg {} [1] exPfx).1.1.map evCode) = [10, 1, 50] := by decide
+/-- two global listeners, the first removes itself while handling the datagram: the second is still called -/
+def exOneShot : Env := { exEnv with effects := fun l _ => if l == 1 then [.rm 1] else [] }
+def exReg2 : Registry := { listeners := [1, 2], table := [(1, .inert), (2, .inert)] }
+example : ((notify exOneShot (fun _ _ => .fail) 9 exReg2 {} [1] [9, 9]).1.1.map evCode) = [1, 2] := by decide
+example : (notify exOneShot (fun _ _ => .fail) 9 exReg2 {} [1] [9, 9]).2.reg.listeners = [2] := by decide
+/-- verified peer cached at address [1], then removed: the next lookup from [1] returns none and drops the entry -/
+def exNet : NetS := (((({} : NetS).newObj 7 70 [1]).addVerified 7).lookup [1]).2.removePeer 7
+example : (exNet.cache.length, (exNet.lookup [1]).2.cache.length) = (1, 0) := by decide
 
 end Ipv8.C03
